@@ -124,6 +124,10 @@ pub fn run(ctx: &Ctx) -> ! {
     let uni = Universe::sverif();
     let mut cfg = CorpusCfg::new(ctx.tier.pick(2, 3));
     cfg.gen.naming_devs = false;
+    // wrong-typed / unknown edge parameters are generated too: the frontend must reject them, and if it
+    // ever accepted one the contract probe would see the ill-typed value reach the adapter
+    cfg.gen.invalid_devs = true;
+    cfg.ir_var_types_fallback = true;
     cfg.max_arg_maps = 1;
     let keep: BTreeSet<&str> = ["diamond", "fan3", "counts0123", "chains", "chain4", "twocycle"].into_iter().collect();
     let uni = Universe { datasets: uni.datasets.iter().filter(|d| keep.contains(d.name.as_str())).cloned().collect(), ..uni };
